@@ -112,6 +112,14 @@ def run(ctx: Ctx) -> None:
 if __R <= 0:
     return __MAX
 return __T
+""") or _find(ct.node, """
+if not __R <= 0:
+    return __T
+return __MAX
+""") or _find(ct.node, """
+if __R > 0:
+    return __T
+return __MAX
 """)
     ok = None
     got = 'shape not recognised - expected: a guard on the variance of the difference, then the ratio'
@@ -363,11 +371,10 @@ return biogeme.tools.likelihood_ratio.likelihood_ratio_test((_LU, _KU), (_LR, _K
                 if (what == 'estimate row' and re.fullmatch(r'\(\w+\.name, \w+\)', tkey)) or (what != 'estimate row' and what.split()[0] in tkey):
                     got = unparse(n.value)
         ctx.add('C08.R3', f'compile_estimation_results:{what}', ok, ce, f'{what} holds {attr[1:]}' if ok else f'{what} holds {got} (robust statistics are announced)', re.sub(r'^\w+\.', 'b.', got or ''))
-    okfmt = has(ce.node, """
-_S = (f'({_B.robust_stdErr:.3g})' if include_robust_stderr else '') if _B.robust_stdErr is not None else __Q1
-_T = (f'({_B.robust_tTest:.3g})' if include_robust_ttest else '') if _B.robust_tTest is not None else __Q2
-_V = f'{_B.value:.3g} {_S} {_T}'
-""")
+    _PS = "_S = (f'({_B.robust_stdErr:.3g})' if include_robust_stderr else '') if _B.robust_stdErr is not None else __Q1\n"
+    _PT = "_T = (f'({_B.robust_tTest:.3g})' if include_robust_ttest else '') if _B.robust_tTest is not None else __Q2\n"
+    _PV = "_V = f'{_B.value:.3g} {_S} {_T}'"
+    okfmt = has(ce.node, _PS + _PT + '___\n' + _PV) or has(ce.node, _PT + _PS + '___\n' + _PV)
     ctx.add('C08.R3', 'compile_estimation_results:formatted', okfmt, ce, 'formatted cell = value (robust std err) (robust t-test)' if okfmt else 'formatted cell of the compiled table changed', 'fmt')
     for fam in FAMILIES:
         m = BR.methods[f'get_{fam}var_covar']
